@@ -91,7 +91,7 @@ def _prune_cache(keep):
         if os.path.basename(e) == keep:
             continue
         kept += 1
-        if kept >= 6:  # keep the current tree and a few others (mutation runs use scratch trees)
+        if kept >= 16:  # keep the current tree and some others (mutation runs and parallel agents use scratch trees)
             shutil.rmtree(e, ignore_errors=True)
 
 
